@@ -189,6 +189,12 @@ def run(tier, seed):
             if real != model:
                 ck.disagree('parse_trace_data differs from model', rp | {'impl': real[:8], 'model': model[:8]})
         iod.check_optimised(ck, opt_calls, 'trace samples')
+        # ---- through the shipped parser module with the io_drawer package installed as individual symbolic links into a store
+        try:
+            from io_drawer.drawer_type import DRAWER_TYPES as _DT
+            iod.check_linkfarm(ck, [(84, dt_.user_data_version, c_[1]) for dt_ in _DT for c_ in opt_calls[:4]], 'trace buffers')
+        except ImportError as e:
+            ck.skip('io_drawer.drawer_type unavailable: %r' % e)
         # ---- through the shipped I/O-drawer parser module (sub-type 84 of component 2C00): the "Trace" member is the stand-alone decoding of the
         # same bytes with the drawer's string file -- also when an entry's data contains what looks like a buffer header
         try:
